@@ -871,9 +871,9 @@ class VoltageLabel(schemdraw.elements.CurrentLabel):
         super().__init__(reverse=reverse, **kwargs)
         try:
             self.at(at.v_label)
-            self.theta(at.transform.theta)
         except AttributeError:
             self.at(at.center)
+        self.theta(at.transform.theta)
         rotate = kwargs.get('rotate', True)
         if rotate == True and at.transform.theta == 270:
             rotate = 90
